@@ -19,7 +19,7 @@ enum { K_NEXT = 0, K_ORIGINAL, K_OLD, K_GARBAGE, K_HELLO, K_ENCODE, K_PUMP, K_DR
 static const char *kname[] = { "next-honest-records", "original-of-corrupted", "older-record-replay", "garbage", "fresh-clienthello", "app-encode", "honest-pump", "drain-loops" };
 
 typedef struct { int ev; int arg; int arg2; } ev_t;
-static ev_t events[80]; static int nev;
+static ev_t events[400]; static int nev;
 static unsigned char *fresh_ch[MX_NVER]; static int fresh_ch_len[MX_NVER];
 
 static void build_events(void)
